@@ -22,8 +22,11 @@
 (*                     created                                             *)
 (*   backup-content    the backup does not hold the content of its source  *)
 (*   loaded-file       not the prescribed pickle was read                  *)
-(*   files-of-type     BIOGEME.files_of_type("pickle") (recorded before a  *)
-(*                     recycle) is not the set of the model's pickles      *)
+(*   files-of-type     BIOGEME.files_of_type(ext) (recorded by "list" and  *)
+(*                     before every recycle) is not exactly the set of     *)
+(*                     THE MODEL's files with that extension (m.ext,       *)
+(*                     m~NN.ext), e.g. it holds a file of another model    *)
+(*                     whose name starts alike                             *)
 (* One verdict line is printed per trace ("ok" or <step>:<clause>).        *)
 (***************************************************************************)
 EXTENDS Files, IOUtils
@@ -50,8 +53,8 @@ StepVerdict(st) ==
     ELSE IF st.ret # p.ret THEN "returned-name"
     ELSE IF \E i \in DOMAIN p.same : A[p.same[i][1]] # B[p.same[i][2]] THEN "backup-content"
     ELSE IF st.opened # p.from THEN "loaded-file"
-    ELSE IF st.op.k = "recycle" /\ Range(st.listed) \ {"-"} #
-              {Cand(st.op.a, "pickle", k) : k \in PresentIdx(DOMAIN B, st.op.a, "pickle", MaxIndex)} THEN "files-of-type"
+    ELSE IF st.op.k = "recycle" /\ Range(st.listed) \ {"-"} # FilesOf(DOMAIN B, st.op.a, "pickle") THEN "files-of-type"
+    ELSE IF st.op.k = "list" /\ Range(st.listed) \ {"-"} # FilesOf(DOMAIN B, st.op.a, st.op.b) THEN "files-of-type"
     ELSE "ok"
 
 TInit == t = 1 /\ l = 0 /\ bad = "ok" /\ dir = << >> /\ clock = 0 /\ log = << >> /\ pre = {}
